@@ -56,6 +56,7 @@ type VC struct {
 	rs            *runState
 	csHit         map[*CallSite]bool
 	indexTerms    []string
+	funcCands     map[int]*ssa.Function
 	knownNumerals map[string]bool
 	tagTypes      map[string]types.Type
 	opaque        map[string]*Val
@@ -576,7 +577,12 @@ func (vc *VC) val(v ssa.Value) *Val {
 	case *ssa.Global:
 		r = &Val{K: KPtr, T: v.Type(), C: []string{vc.globalRef(v), bvLitI(64, 0)}}
 	case *ssa.Function:
-		r = &Val{K: KFunc, T: v.Type(), C: []string{fmt.Sprint(vc.e.funcID(v))}}
+		id := vc.e.funcID(v)
+		if vc.funcCands == nil {
+			vc.funcCands = map[int]*ssa.Function{}
+		}
+		vc.funcCands[id] = v
+		r = &Val{K: KFunc, T: v.Type(), C: []string{fmt.Sprint(id)}}
 	case *ssa.Builtin:
 		r = &Val{K: KFunc, T: v.Type(), C: []string{"0"}}
 	default:
